@@ -189,9 +189,18 @@ func (c *Chain) Prepare(prop int, h int64, t time.Time, reqs *Requests) ([][]byt
 	n := c.Nodes[prop]
 	n.EL.SetNext(reqs)
 	n.EL.SetPhase("prepare")
-	pp, err := n.App.PrepareProposal(&abci.RequestPrepareProposal{MaxTxBytes: 4 << 20, Height: h, Time: t, ProposerAddress: c.W.Vals[prop].Cons})
+	req := &abci.RequestPrepareProposal{MaxTxBytes: 4 << 20, Height: h, Time: t, ProposerAddress: c.W.Vals[prop].Cons}
+	pp, err := n.App.PrepareProposal(req)
 	if err != nil {
 		return nil, err
+	}
+	// the proposer has a 1.2 s deadline for its two engine calls; on a heavily loaded machine the round trip
+	// over the unix socket can exceed it although nothing was injected: retry as CometBFT's next round would
+	for retry := 0; retry < 3 && len(pp.Txs) == 0 && !n.EL.HasFaults(); retry++ {
+		time.Sleep(100 * time.Millisecond)
+		if pp, err = n.App.PrepareProposal(req); err != nil {
+			return nil, err
+		}
 	}
 	if len(pp.Txs) == 0 {
 		// BaseApp swallows the handler's error and answers with the (empty) list of transactions it was
